@@ -95,7 +95,7 @@ def impl(case):
     m = [[5, 0, 0], [0, 5, 0], [0, 0, 5]]
     coords = np.zeros((T, na, 3))
     coords[:, :, 0] = (np.arange(T) / 1024)[:, None]
-    traj = synth.make_traj(m, ['Li'] * na, coords)
+    traj = synth.make_traj(m, ['Li'] * na, coords, images=synth.image_seed(case))
     ev = _calculate_transition_events(atom_sites=states, atom_inner_sites=inner)
     tr = Transitions(trajectory=traj, diff_trajectory=traj, sites=_Sites(), events=ev, states=states, inner_states=inner)
     out = {}
